@@ -135,6 +135,89 @@ mutant("run-samples-interrupt-once", ["C08"], [("cpu.go", """	cpu.HALT = false
 		first = false""")], note="maskable requests raised by device callbacks during Run are only honoured at Run entry")
 
 
+# ---- C09 -------------------------------------------------------------------
+mutant("ldir-whole-operation-in-one-step", ["C09"], [("op_exbtsg.go", """func oopLDIR(cpu *CPU) {
+	oopLDI(cpu)
+	if cpu.AF.Lo&maskPV != 0 { // cpu.BC != 0
+		cpu.PC -= 2
+	}
+}""", """func oopLDIR(cpu *CPU) {
+	oopLDI(cpu)
+	for cpu.AF.Lo&maskPV != 0 { // cpu.BC != 0
+		oopLDI(cpu)
+	}
+}""")])
+mutant("otdr-increments-hl", ["C09"], [("op_inout.go", """func oopOTDR(cpu *CPU) {
+	cpu.ioOut(cpu.BC.Lo, cpu.Memory.Get(cpu.HL.U16()))
+	cpu.BC.Hi--
+	cpu.HL.SetU16(cpu.HL.U16() - 1)""", """func oopOTDR(cpu *CPU) {
+	cpu.ioOut(cpu.BC.Lo, cpu.Memory.Get(cpu.HL.U16()))
+	cpu.BC.Hi--
+	cpu.HL.SetU16(cpu.HL.U16() + 1)""")])
+mutant("cpir-ignores-match-on-page-boundary", ["C09"], [("op_exbtsg.go", """func oopCPIR(cpu *CPU) {
+	oopCPI(cpu)
+	// cpu.BC != 0 && A - (HL) != 0
+	if cpu.AF.Lo&maskPV != 0 && cpu.AF.Lo&maskZ == 0 {""", """func oopCPIR(cpu *CPU) {
+	oopCPI(cpu)
+	// cpu.BC != 0 && A - (HL) != 0
+	if cpu.AF.Lo&maskPV != 0 && (cpu.AF.Lo&maskZ == 0 || cpu.HL.Lo == 0 && cpu.BC.Hi != 0) {""")], note="needs a match exactly at xxFF with BC >= 256 remaining")
+mutant("inir-256-when-b0-stops-at-once", ["C09"], [("op_inout.go", """func oopINIR(cpu *CPU) {
+	cpu.Memory.Set(cpu.HL.U16(), cpu.ioIn(cpu.BC.Lo))
+	cpu.BC.Hi--
+	cpu.HL.SetU16(cpu.HL.U16() + 1)
+	cpu.updateFlagIObZ()
+	if cpu.BC.Hi != 0 {""", """func oopINIR(cpu *CPU) {
+	cpu.Memory.Set(cpu.HL.U16(), cpu.ioIn(cpu.BC.Lo))
+	cpu.BC.Hi--
+	cpu.HL.SetU16(cpu.HL.U16() + 1)
+	cpu.updateFlagIObZ()
+	if cpu.BC.Hi != 0 && cpu.BC.Hi != 0xff {""")], note="B=0 must mean 256 transfers")
+mutant("lddr-reads-after-write", ["C09"], [("op_exbtsg.go", """	a := cpu.Memory.Get(hl)
+	cpu.Memory.Set(de, a)
+	cpu.DE.SetU16(de - 1)""", """	cpu.Memory.Set(de, cpu.Memory.Get(hl))
+	a := cpu.Memory.Get(de)
+	cpu.DE.SetU16(de - 1)""")], note="extra read of the destination: invisible in final memory")
+
+
+# ---- C05 -------------------------------------------------------------------
+mutant("out-c-r-uses-port-b", ["C05"], [("op_inout.go", """func xopOUTCPd(cpu *CPU) {
+	cpu.ioOut(cpu.BC.Lo, cpu.DE.Hi)""", """func xopOUTCPd(cpu *CPU) {
+	cpu.ioOut(cpu.BC.Hi, cpu.DE.Hi)""")])
+mutant("ret-cc-pops-then-decides", ["C05"], [("op_callret.go", """func xopRETfPV(cpu *CPU) {
+	if cpu.AF.Lo&maskPV != 0 {
+		oopRET(cpu)
+	}
+}""", """func xopRETfPV(cpu *CPU) {
+	sp, pc := cpu.SP, cpu.PC
+	oopRET(cpu)
+	if cpu.AF.Lo&maskPV == 0 {
+		cpu.SP, cpu.PC = sp, pc
+	}
+}""")], note="untaken RET PE touches the stack (reads), final state identical")
+mutant("inc-ixd-reads-twice", ["C05"], [("op_arith8.go", """	p := addrOff(cpu.IX, d)
+	x := cpu.Memory.Get(p)
+	cpu.Memory.Set(p, cpu.incU8(x))""", """	p := addrOff(cpu.IX, d)
+	x := cpu.Memory.Get(p)
+	cpu.Memory.Set(p, cpu.incU8(cpu.Memory.Get(p)))
+	_ = x""")])
+mutant("ld-nn-a-writes-twice", ["C05"], [("op_load8.go", """func oopLDnnPA(cpu *CPU) {""", """func oopLDnnPA(cpu *CPU) {
+	defer func() { cpu.Memory.Set(toU16(cpu.Memory.Get(cpu.PC-2), cpu.Memory.Get(cpu.PC-1)), cpu.AF.Hi) }()""")], note="repeated write + re-read of operand bytes")
+mutant("in-a-n-reads-port-twice", ["C05"], [("op_inout.go", """	n := cpu.fetch()
+	cpu.AF.Hi = cpu.ioIn(n)""", """	n := cpu.fetch()
+	cpu.AF.Hi = cpu.ioIn(n)
+	if cpu.AF.Hi == 0xff {
+		cpu.AF.Hi = cpu.ioIn(n)
+	}""")], note="floating-bus retry: doubled port read only when the device returns FF")
+mutant("set-b-hl-skips-write-when-unchanged", ["C05"], [("op_bitop.go", """	x := cpu.Memory.Get(p)
+	x = cpu.bitset8(b, x)
+	cpu.Memory.Set(p, x)
+}""", """	x := cpu.Memory.Get(p)
+	if y := cpu.bitset8(b, x); y != x {
+		cpu.Memory.Set(p, y)
+	}
+}""")], note="missing write-back of an unchanged value: device sees no write")
+
+
 def run(cmd, **kw):
     return subprocess.run(cmd, stdout=subprocess.PIPE, stderr=subprocess.STDOUT, text=True, **kw)
 
